@@ -137,9 +137,10 @@ func (h DefaultStrategy) GenerateIDToken(ctx context.Context, lifespan time.Dura
 	}
 
 	if requester.GetRequestForm().Get("grant_type") != "refresh_token" {
+		// max_age=0 is a value of its own; -1 stands for "not sent"
 		maxAge, err := strconv.ParseInt(requester.GetRequestForm().Get("max_age"), 10, 64)
 		if err != nil {
-			maxAge = 0
+			maxAge = -1
 		}
 
 		// Adds a bit of wiggle room for timing issues
@@ -147,7 +148,7 @@ func (h DefaultStrategy) GenerateIDToken(ctx context.Context, lifespan time.Dura
 			return "", errorsx.WithStack(fosite.ErrServerError.WithDebug("Failed to validate OpenID Connect request because authentication time is in the future."))
 		}
 
-		if maxAge > 0 {
+		if maxAge >= 0 {
 			if claims.AuthTime.IsZero() {
 				return "", errorsx.WithStack(fosite.ErrServerError.WithDebug("Failed to generate id token because authentication time claim is required when max_age is set."))
 			} else if claims.RequestedAt.IsZero() {
